@@ -11,7 +11,6 @@ From VF Require Import Num GenNorm GenTerm Core Fll.
 Import ListNotations.
 Local Open Scope string_scope.
 Local Open Scope list_scope.
-Set Implicit Arguments.
 
 Notation "a +++ b" := (String.append a b) (at level 60, right associativity).
 
@@ -92,15 +91,11 @@ Proof.
 Qed.
 
 Lemma rstrip_nonempty_tail c s : rstrip s <> "" -> rstrip (String c s) = String c (rstrip s).
-Proof. intros H. cbn. destruct (rstrip s); [congruence|reflexivity]. Qed.
+Proof. intros H. cbn [rstrip]. destruct (rstrip s) eqn:E; [now elim H|reflexivity]. Qed.
 Lemma rstrip_idem s : rstrip (rstrip s) = rstrip s.
 Proof.
-  induction s; cbn; [reflexivity|].
-  destruct (rstrip s) eqn:E; cbn.
-  - destruct (is_ws a) eqn:W; cbn; [reflexivity|]. now rewrite W.
-  - cbn in IHs. destruct (rstrip s0) eqn:E2.
-    + cbn in *. destruct (is_ws a0); congruence.
-    + cbn. now rewrite IHs.
+  induction s; [reflexivity|]. cbn [rstrip].
+  destruct (String.eqb (rstrip s) "" && is_ws a) eqn:C; [reflexivity|]. cbn [rstrip]. rewrite IHs, C. reflexivity.
 Qed.
 Lemma rstrip_app a b : b <> "" -> rstrip b = b -> rstrip (a +++ b) = a +++ b.
 Proof.
@@ -121,7 +116,7 @@ Proof. unfold strip. intros -> ->. reflexivity. Qed.
 Lemma strip_lclean s : lstrip (strip s) = strip s.
 Proof.
   unfold strip. pose proof (lstrip_first (lstrip s) (lstrip_idem s)) as H.
-  destruct (lstrip s) as [|c r]; [reflexivity|]. rewrite (rstrip_first _ H). now apply lstrip_nows.
+  destruct (lstrip s) as [|c r]; [reflexivity|]. rewrite (rstrip_first c r H). now apply lstrip_nows.
 Qed.
 Lemma strip_rclean s : rstrip (strip s) = strip s.
 Proof. unfold strip. apply rstrip_idem. Qed.
@@ -186,7 +181,7 @@ Proof.
 Qed.
 
 (* ---- split_colon *)
-Lemma split_colon_app k rest : str_forall not_colon k = true -> split_colon (k +++ ":" +++ rest) = Some (k, rest).
+Lemma split_colon_app k rest : str_forall not_colon k = true -> split_colon (k +++ String ":" rest) = Some (k, rest).
 Proof.
   induction k; cbn; [reflexivity|]. unfold not_colon at 1. rewrite andb_true_iff, negb_true_iff. intros [-> H].
   now rewrite IHk.
@@ -272,15 +267,16 @@ Proof. intros H. unfold split_ws. apply join_tokens_split; [assumption | now app
 Lemma join_app_ne a b : a <> [] -> b <> [] -> join " " (a ++ b) = join " " a +++ " " +++ join " " b.
 Proof.
   intros Ha Hb. induction a as [|x a IH]; [congruence|]. destruct a as [|y a].
-  - cbn [app]. destruct b; [congruence|]. reflexivity.
-  - cbn [app]. rewrite !join_cons2. change ((y :: a) ++ b) with (y :: a ++ b) in *. rewrite join_cons2 in IH.
-    rewrite IH by discriminate. rewrite join_cons2. now rewrite !sapp_assoc.
+  - destruct b; [congruence|]. reflexivity.
+  - assert (IH' : join " " ((y :: a) ++ b) = join " " (y :: a) +++ " " +++ join " " b) by (apply IH; discriminate).
+    change ((x :: y :: a) ++ b) with (x :: y :: (a ++ b)). rewrite join_cons2.
+    change (y :: a ++ b) with ((y :: a) ++ b). rewrite IH'. rewrite join_cons2. rewrite !sapp_assoc. reflexivity.
 Qed.
 (* " ".join([" ".join(a)] + b) = " ".join(a + b) when a is not empty *)
 Lemma join_join a b : a <> [] -> join " " (join " " a :: b) = join " " (a ++ b).
 Proof.
   intros Ha. destruct b as [|y b]; [now rewrite app_nil_r|].
-  rewrite join_cons2. rewrite (join_app_ne Ha) by discriminate. reflexivity.
+  rewrite join_cons2. rewrite (join_app_ne a (y :: b) Ha) by discriminate. reflexivity.
 Qed.
 Lemma join_nil_iff toks : Forall (fun t => tokenb t = true) toks -> join " " toks = "" -> toks = [].
 Proof.
@@ -308,4 +304,89 @@ Proof.
   - rewrite join_cons2. rewrite <- sapp_assoc. apply rstrip_app; [|now apply IH].
     inversion_clear Hr as [|? ? Hb _]. destruct (token_parts b Hb) as (H1 & _).
     destruct r; cbn; [assumption|]. intros E. apply sapp_eq_nil in E. tauto.
+Qed.
+
+(* ---- identifiers *)
+Lemma str_filter_forall f s : str_forall f (str_filter f s) = true.
+Proof. induction s; cbn; [reflexivity|]. destruct (f a) eqn:E; cbn; [now rewrite E|assumption]. Qed.
+Lemma str_filter_id f s : str_forall f s = true -> str_filter f s = s.
+Proof. induction s; cbn; [reflexivity|]. rewrite andb_true_iff. intros [-> H]. now rewrite IHs. Qed.
+
+Lemma as_identifier_chars n : str_forall is_ident_char (as_identifier n) = true.
+Proof.
+  unfold as_identifier. pose proof (str_filter_forall is_ident_char n) as H.
+  destruct (str_filter is_ident_char n) as [|c r]; [reflexivity|].
+  change (String.eqb (String c r) "") with false. cbv iota. destruct (is_digit c); [|assumption].
+  cbn [str_forall]. now rewrite H.
+Qed.
+Lemma as_identifier_nonempty n : as_identifier n <> "".
+Proof.
+  unfold as_identifier. destruct (str_filter is_ident_char n) as [|c r]; [discriminate|].
+  change (String.eqb (String c r) "") with false. cbv iota. destruct (is_digit c); discriminate.
+Qed.
+Lemma as_identifier_first n : match as_identifier n with String c _ => is_digit c = false | "" => False end.
+Proof.
+  unfold as_identifier. destruct (str_filter is_ident_char n) as [|c r]; [reflexivity|].
+  change (String.eqb (String c r) "") with false. cbv iota. destruct (is_digit c) eqn:E; [reflexivity|assumption].
+Qed.
+Lemma as_identifier_idem n : as_identifier (as_identifier n) = as_identifier n.
+Proof.
+  pose proof (as_identifier_chars n) as H1. pose proof (as_identifier_first n) as H2.
+  destruct (as_identifier n) as [|c r] eqn:E; [contradiction|].
+  unfold as_identifier. rewrite (str_filter_id _ _ H1).
+  change (String.eqb (String c r) "") with false. cbv iota. now rewrite H2.
+Qed.
+Lemma ident_token n : ident_ok n = true -> tokenb n = true.
+Proof.
+  unfold ident_ok. intros H. apply String.eqb_eq in H. unfold tokenb. rewrite andb_true_iff. split.
+  - apply nonempty_true. rewrite <- H. apply as_identifier_nonempty.
+  - rewrite <- H. generalize (as_identifier_chars n). apply str_forall_impl. apply ident_char_token.
+Qed.
+Lemma ident_ok_id n : ident_ok n = true -> as_identifier n = n.
+Proof. unfold ident_ok. apply String.eqb_eq. Qed.
+Lemma ident_ok_as_identifier n : ident_ok (as_identifier n) = true.
+Proof. unfold ident_ok. apply String.eqb_eq. apply as_identifier_idem. Qed.
+
+(* ---- integers *)
+Definition digit_or_minus (c : ascii) : bool := is_digit c || Ascii.eqb c "-".
+Lemma uint_chars u : str_forall is_digit (NilEmpty.string_of_uint u) = true.
+Proof. induction u; cbn; auto. Qed.
+Lemma uint_chars0 u : str_forall is_digit (NilZero.string_of_uint u) = true.
+Proof. destruct u; try reflexivity; apply (uint_chars (_ u)). Qed.
+Lemma string_of_Z_chars z : str_forall digit_or_minus (string_of_Z z) = true.
+Proof.
+  unfold string_of_Z. destruct (Z.to_int z) as [u|u]; cbn [NilZero.string_of_int].
+  - generalize (uint_chars0 u). apply str_forall_impl. intros c H. unfold digit_or_minus. now rewrite H.
+  - cbn [str_forall]. change (digit_or_minus "-") with true. cbn [andb].
+    generalize (uint_chars0 u). apply str_forall_impl. intros c H. unfold digit_or_minus. now rewrite H.
+Qed.
+Lemma string_of_Z_nonempty z : string_of_Z z <> "".
+Proof.
+  unfold string_of_Z. destruct (Z.to_int z) as [u|u]; cbn [NilZero.string_of_int]; [|discriminate].
+  destruct u; cbn; discriminate.
+Qed.
+Lemma digit_or_minus_token c : digit_or_minus c = true -> negb (is_ws c) && negb (is_hash c) = true.
+Proof. destruct c as [[] [] [] [] [] [] [] []]; vm_compute; intros; congruence. Qed.
+Lemma digit_or_minus_not_plus c : digit_or_minus c = true -> Ascii.eqb c "+" = false.
+Proof. destruct c as [[] [] [] [] [] [] [] []]; vm_compute; intros; congruence. Qed.
+Lemma string_of_Z_token z : tokenb (string_of_Z z) = true.
+Proof.
+  unfold tokenb. rewrite andb_true_iff. split; [apply nonempty_true, string_of_Z_nonempty|].
+  generalize (string_of_Z_chars z). apply str_forall_impl. apply digit_or_minus_token.
+Qed.
+Lemma to_int_not_nil z : Z.to_int z <> Pos Nil /\ Z.to_int z <> Neg Nil.
+Proof.
+  destruct z; cbn; split; try discriminate; intros [= H]; now apply (Unsigned.to_uint_nonnil p).
+Qed.
+Lemma Z_of_string_of_Z z : Z_of_string (string_of_Z z) = Some z.
+Proof.
+  pose proof (string_of_Z_chars z) as HC. pose proof (string_of_Z_nonempty z) as HN.
+  unfold Z_of_string. destruct (string_of_Z z) as [|c r] eqn:E; [congruence|].
+  cbn [str_forall] in HC. apply andb_true_iff in HC. destruct HC as [HC _].
+  apply digit_or_minus_not_plus in HC.
+  assert (G : option_map Z.of_int (NilZero.int_of_string (String c r)) = Some z).
+  { rewrite <- E. unfold string_of_Z. destruct (to_int_not_nil z) as [A B]. rewrite NilZero.isi by assumption.
+    cbn. now rewrite DecimalZ.of_to. }
+  destruct c as [b0 b1 b2 b3 b4 b5 b6 b7].
+  destruct b0, b1, b2, b3, b4, b5, b6, b7; try exact G; discriminate HC.
 Qed.
